@@ -156,6 +156,106 @@ func normBlocks(out string) (plain map[string]int, hoisted map[string]bool) {
 	return plain, hoisted
 }
 
+// c17Independence compiles a file, the same statements in the opposite order, and every top-level statement on
+// its own, and compares the emitted blocks (up to numbering / sharing of hoisted labels).
+func c17Independence(k *h.Case, prog *spec.Program, opt bool) bool {
+	full := h.Compile(spec.Source(prog), optsOf(prog, opt))
+	k.Count("evaluations", 1)
+	k.SetSource(spec.Source(prog))
+	// the same statements in the opposite order: same acceptance, same blocks
+	rev := &spec.Program{AutoVars: prog.AutoVars, Switches: prog.Switches}
+	for i := len(prog.Items) - 1; i >= 0; i-- {
+		rev.Items = append(rev.Items, prog.Items[i])
+	}
+	rres := h.Compile(spec.Source(rev), optsOf(prog, opt))
+	k.Count("evaluations", 1)
+	if full.OK() != rres.OK() {
+		k.Violation("order-changes-acceptance", fmt.Sprintf("the file is accepted in one order of its top-level statements and rejected in the other: original order %q, reversed %q", full.ErrString(), rres.ErrString()), map[string]interface{}{"reversed_source": spec.Source(rev)})
+		return false
+	}
+	if !full.OK() {
+		k.Count("rejected", 1)
+		if full.Panic == nil && !strings.Contains(full.ErrString(), "no poryswitch case found") {
+			// every statement compiles on its own, the file does not: what is emitted for a statement (here:
+			// nothing) depends on its neighbours
+			allAlone := true
+			for _, it := range prog.Items {
+				alone := &spec.Program{AutoVars: prog.AutoVars, Switches: prog.Switches, Items: []spec.Item{it}}
+				if r := h.Compile(spec.Source(alone), optsOf(prog, opt)); !r.OK() {
+					allAlone = false
+					break
+				}
+			}
+			if allAlone {
+				k.Violation("file-rejected-statements-accepted", fmt.Sprintf("each of the %d top-level statements compiles on its own, in a file together they are rejected: %s", len(prog.Items), full.ErrString()), nil)
+				return false
+			}
+		}
+		rejectedValid(k, prog, full, false)
+		return false
+	}
+	fp, fh := normBlocks(full.Out)
+	rp0, rh0 := normBlocks(rres.Out)
+	same := len(fp) == len(rp0) && len(fh) == len(rh0)
+	for b, n := range fp {
+		if rp0[b] != n {
+			same = false
+		}
+	}
+	for b := range fh {
+		if !rh0[b] {
+			same = false
+		}
+	}
+	if !same {
+		k.Violation("order-changes-code", "the same top-level statements in the opposite order emit different blocks (beyond numbering/sharing of hoisted labels)", map[string]interface{}{"original": full.Out, "reversed": rres.Out})
+		return false
+	}
+	k.Count("order_pairs_equal", 1)
+	sumPlain := map[string]int{}
+	unionH := map[string]bool{}
+	for i, it := range prog.Items {
+		alone := &spec.Program{AutoVars: prog.AutoVars, Switches: prog.Switches, Items: []spec.Item{it}}
+		r := h.Compile(spec.Source(alone), optsOf(prog, opt))
+		k.Count("evaluations", 1)
+		if !r.OK() {
+			k.Violation("alone-rejected", fmt.Sprintf("top-level statement %d compiles inside the file but is rejected on its own: %s", i, r.ErrString()), map[string]interface{}{"alone": spec.Source(alone)})
+			return false
+		}
+		ap, ah := normBlocks(r.Out)
+		for b, n := range ap {
+			sumPlain[b] += n
+			if fp[b] < n {
+				k.Violation("depends-on-neighbours", fmt.Sprintf("top-level statement %d: a block emitted when it is compiled alone does not occur (unchanged, up to hoisted-label names) in the output of the whole file:\n%s", i, b), map[string]interface{}{"full": full.Out, "alone": r.Out, "alone_source": spec.Source(alone)})
+				return false
+			}
+		}
+		for b := range ah {
+			unionH[b] = true
+			if !fh[b] {
+				k.Violation("hoisted-differs", fmt.Sprintf("top-level statement %d: a hoisted text/movement emitted when compiled alone has no counterpart with the same content in the whole file:\n%s", i, b), map[string]interface{}{"full": full.Out, "alone": r.Out})
+				return false
+			}
+		}
+	}
+	for b, n := range fp {
+		if sumPlain[b] != n {
+			k.Violation("extra-blocks", fmt.Sprintf("the whole file emits a block %d time(s) that the statements compiled one by one emit %d time(s):\n%s", n, sumPlain[b], b), map[string]interface{}{"full": full.Out})
+			return false
+		}
+	}
+	for b := range fh {
+		if !unionH[b] {
+			k.Violation("extra-hoisted", fmt.Sprintf("the whole file emits a hoisted block no single statement accounts for:\n%s", b), map[string]interface{}{"full": full.Out})
+			return false
+		}
+	}
+	k.Count("files_decomposed", 1)
+	k.Count("statements_compiled_alone", int64(len(prog.Items)))
+	k.Nontrivial("indep", len(prog.Items), len(fp), len(fh))
+	return true
+}
+
 func runC17(ctx *h.Ctx) int {
 	reps := 20
 	// (a) repeat in one process, interleaved with other inputs (and with 15 other workers compiling concurrently)
@@ -515,85 +615,60 @@ func runC17(ctx *h.Ctx) int {
 				k.Count("files_with_label_spelled_like_another_scripts_sublabel", 1)
 			}
 		}
-		opt := k.R.IntN(2) == 0
-		full := h.Compile(spec.Source(prog), optsOf(prog, opt))
-		k.Count("evaluations", 1)
-		k.SetSource(spec.Source(prog))
-		// the same statements in the opposite order: same acceptance, same blocks
-		rev := &spec.Program{AutoVars: prog.AutoVars, Switches: prog.Switches}
-		for i := len(prog.Items) - 1; i >= 0; i-- {
-			rev.Items = append(rev.Items, prog.Items[i])
+		c17Independence(k, prog, k.R.IntN(2) == 0)
+	})
+	// (b') the same with MANY top-level statements of one kind in front of and behind ordinary ones: whatever
+	// the compiler counts or caches per file (groups, labels, fonts, chunks, hoisted values) must not change what a
+	// later statement compiles to - each of these statements compiles alone, and thresholds only show in big files
+	ctx.RunCases("many-statements", ctx.N(36, 600), func(k *h.Case) {
+		prof := profFull()
+		g := spec.NewGen(k.R, prof)
+		prog := g.FullProgram(1 + k.R.IntN(3))
+		fp := g.P // (with the generator's defaults filled in)
+		fp.MaxDepth, fp.MaxLen, fp.MaxLeaves, fp.NoRedundantPar = 2, 2, 4, false
+		fp.PTextArg, fp.PMovesArg, fp.PAuto, fp.PFormat, fp.WPory, fp.PFallback = 0.1, 0.05, 0.1, 0.1, 0, 1
+		kind := k.Index % 6
+		switch kind {
+		case 0: // compound conditions with groups
+			fp.WIf, fp.WWhile, fp.WDoWhile, fp.WSwitch = 60, 15, 10, 0
+		case 1: // switches
+			fp.WSwitch, fp.MaxCases = 60, 6
+		case 2: // inline texts, format() with and without parameters
+			fp.PTextArg, fp.PFormat, fp.PTyped, fp.WCmd = 0.8, 0.6, 0.2, 80
+		case 3: // AutoVar commands
+			fp.PAuto, fp.PRepeatAuto = 0.8, 0.3
+		case 4: // inline movements and poryswitch statements
+			fp.PMovesArg, fp.WPory, fp.WCmd = 0.6, 20, 60
+		default:
+			fp.PTextArg, fp.PMovesArg, fp.PAuto, fp.PFormat, fp.WPory = 0.3, 0.2, 0.3, 0.3, 6
 		}
-		rres := h.Compile(spec.Source(rev), optsOf(prog, opt))
-		k.Count("evaluations", 1)
-		if full.OK() != rres.OK() {
-			k.Violation("order-changes-acceptance", fmt.Sprintf("the file is accepted in one order of its top-level statements and rejected in the other: original order %q, reversed %q", full.ErrString(), rres.ErrString()), map[string]interface{}{"reversed_source": spec.Source(rev)})
-			return
+		n := 65 + k.R.IntN(140)
+		if !ctx.Quick() && k.Index%8 == 0 {
+			n = 257 + k.R.IntN(900)
 		}
-		if !full.OK() {
-			k.Count("rejected", 1)
-			rejectedValid(k, prog, full, false)
-			return
-		}
-		fp, fh := normBlocks(full.Out)
-		rp0, rh0 := normBlocks(rres.Out)
-		same := len(fp) == len(rp0) && len(fh) == len(rh0)
-		for b, n := range fp {
-			if rp0[b] != n {
-				same = false
+		g.P = fp
+		var filler []spec.Item
+		for i := 0; i < n; i++ {
+			switch {
+			case kind == 2 && i%4 == 0, kind == 5 && i%7 == 0:
+				filler = append(filler, g.TextStmt())
+			case kind == 4 && i%4 == 0, kind == 5 && i%7 == 1:
+				filler = append(filler, g.MovementStmt())
+			case kind == 5 && i%7 == 2:
+				filler = append(filler, g.MartStmt())
+			default:
+				filler = append(filler, g.Script())
 			}
 		}
-		for b := range fh {
-			if !rh0[b] {
-				same = false
-			}
+		// most of the filler in front, some behind
+		cut := len(filler) - k.R.IntN(8)
+		prog.Items = append(append(append([]spec.Item{}, filler[:cut]...), prog.Items...), filler[cut:]...)
+		k.Count("big_files", 1)
+		k.Count("big_file_statements", int64(len(prog.Items)))
+		if c17Independence(k, prog, k.R.IntN(2) == 0) {
+			k.Count("big_files_decomposed", 1)
+			k.Count(fmt.Sprintf("big_files_decomposed_kind_%d", kind), 1)
 		}
-		if !same {
-			k.Violation("order-changes-code", "the same top-level statements in the opposite order emit different blocks (beyond numbering/sharing of hoisted labels)", map[string]interface{}{"original": full.Out, "reversed": rres.Out})
-			return
-		}
-		k.Count("order_pairs_equal", 1)
-		sumPlain := map[string]int{}
-		unionH := map[string]bool{}
-		for i, it := range prog.Items {
-			alone := &spec.Program{AutoVars: prog.AutoVars, Switches: prog.Switches, Items: []spec.Item{it}}
-			r := h.Compile(spec.Source(alone), optsOf(prog, opt))
-			k.Count("evaluations", 1)
-			if !r.OK() {
-				k.Violation("alone-rejected", fmt.Sprintf("top-level statement %d compiles inside the file but is rejected on its own: %s", i, r.ErrString()), map[string]interface{}{"alone": spec.Source(alone)})
-				return
-			}
-			ap, ah := normBlocks(r.Out)
-			for b, n := range ap {
-				sumPlain[b] += n
-				if fp[b] < n {
-					k.Violation("depends-on-neighbours", fmt.Sprintf("top-level statement %d: a block emitted when it is compiled alone does not occur (unchanged, up to hoisted-label names) in the output of the whole file:\n%s", i, b), map[string]interface{}{"full": full.Out, "alone": r.Out, "alone_source": spec.Source(alone)})
-					return
-				}
-			}
-			for b := range ah {
-				unionH[b] = true
-				if !fh[b] {
-					k.Violation("hoisted-differs", fmt.Sprintf("top-level statement %d: a hoisted text/movement emitted when compiled alone has no counterpart with the same content in the whole file:\n%s", i, b), map[string]interface{}{"full": full.Out, "alone": r.Out})
-					return
-				}
-			}
-		}
-		for b, n := range fp {
-			if sumPlain[b] != n {
-				k.Violation("extra-blocks", fmt.Sprintf("the whole file emits a block %d time(s) that the statements compiled one by one emit %d time(s):\n%s", n, sumPlain[b], b), map[string]interface{}{"full": full.Out})
-				return
-			}
-		}
-		for b := range fh {
-			if !unionH[b] {
-				k.Violation("extra-hoisted", fmt.Sprintf("the whole file emits a hoisted block no single statement accounts for:\n%s", b), map[string]interface{}{"full": full.Out})
-				return
-			}
-		}
-		k.Count("files_decomposed", 1)
-		k.Count("statements_compiled_alone", int64(len(prog.Items)))
-		k.Nontrivial("indep", len(prog.Items), len(fp), len(fh))
 	})
 	// (c) shared-state probe under the race detector (thorough tier; needs the -race build made by ./run)
 	if bin := os.Getenv("PVMON_RACE_BIN"); bin != "" {
